@@ -1,38 +1,45 @@
 ------------------------- MODULE Trace_LinkedStruct -------------------------
 (* code -> spec: recorded executions of real modules built from StructParam   *)
-(* (random layouts, three members, values 0..9, long histories) must be       *)
-(* behaviours of LinkedStruct.  Event 1 of a trace is the state observed      *)
-(* after the start-up poll; every further event is one operation with the     *)
-(* state observed after it: hw, mem, str, the client's view of the update     *)
-(* stream (vmem, vstr) and the value replied / returned (rep).                *)
-EXTENDS LinkedStruct, Json, IOUtils, TLCExt, Sequences
+(* (both layouts, three members, values 0..9, long histories, clipping or     *)
+(* refusing hardware, faults on single members, all exception flavours; also  *)
+(* the short sequences with faults enumerated by Gen_LinkedStruct/FGSpec)     *)
+(* must be behaviours of LinkedStruct.  Event 1 of a trace is the state       *)
+(* observed after the start-up poll; every further event is one operation     *)
+(* (f = the member whose hardware access failed during it, "none" otherwise)  *)
+(* with the state observed after it: hw, mem, str, merr (members showing an   *)
+(* error), serr, ok, the client's view of the update stream (vmem, vstr; -1 / *)
+(* -3 where an error report was the last thing delivered) and the value       *)
+(* replied / returned (rep).                                                  *)
+EXTENDS LinkedStruct, Json, IOUtils, TLCExt, Sequences, SequencesExt
 Traces == JsonDeserialize(IOEnv.TRACE_FILE)
 NT == Len(Traces)
 VARIABLES t, l
 ASSUME \A i \in 1 .. NT : TLCSet(i, 1)
 Ev == Traces[t][l]
 
-ViewOK(e) == e.vmem = e.mem /\ e.vstr = e.str      \* the stream reconstructs the cache
+(* the stream reconstructs the cache: value where a value is shown, error report where an error is shown *)
+ViewOK(e) == /\ \A k \in Members : e.vmem[k] = (IF k \in ToSet(e.merr) THEN 0 - 1 ELSE e.mem[k])
+             /\ \A k \in Members : e.vstr[k] = (IF e.serr THEN 0 - 3 ELSE e.str[k])
 
 TInit == /\ t \in 1 .. NT /\ l = 2
          /\ LET e == Traces[t][1] IN
-              /\ e.hwmax = HwMax /\ hwmode = e.hwmode /\ ok = TRUE
-              /\ hw = e.hw /\ mem = e.mem /\ str = e.str
-              /\ hw \in Fn /\ mem = hw /\ str = hw /\ ViewOK(e)
+              /\ e.hwmax = HwMax /\ hwmode = e.hwmode /\ exc = e.exc /\ ok = TRUE
+              /\ hw = e.hw /\ mem = e.mem /\ str = e.str /\ merr = ToSet(e.merr) /\ serr = e.serr
+              /\ hw \in Fn /\ mem = hw /\ str = hw /\ merr = {} /\ ~serr /\ ViewOK(e)
 
 TStep ==
   /\ l <= Len(Traces[t])
   /\ l' = l + 1 /\ t' = t
-  /\ hw' = Ev.hw /\ mem' = Ev.mem /\ str' = Ev.str /\ ok' = Ev.ok
+  /\ hw' = Ev.hw /\ mem' = Ev.mem /\ str' = Ev.str /\ merr' = ToSet(Ev.merr) /\ serr' = Ev.serr /\ ok' = Ev.ok
   /\ hw' \in Fn /\ mem' \in Fn /\ str' \in Fn
   /\ ViewOK(Ev)
-  /\ \/ Ev.ev = "ws" /\ WriteStruct(Ev.v) /\ (ok' => Ev.rep = str')
+  /\ \/ Ev.ev = "ws" /\ WriteStruct(Ev.v, Ev.f) /\ (ok' => Ev.rep = str')
      \/ Ev.ev = "as" /\ AssignStruct(Ev.v)
-     \/ Ev.ev = "wm" /\ WriteMember(Ev.m, Ev.v) /\ (ok' => Ev.rep = mem'[Ev.m])
+     \/ Ev.ev = "wm" /\ WriteMember(Ev.m, Ev.v, Ev.f) /\ (ok' => Ev.rep = mem'[Ev.m])
      \/ Ev.ev = "am" /\ AssignMember(Ev.m, Ev.v)
-     \/ Ev.ev = "rs" /\ ReadStruct /\ Ev.rep = str'
-     \/ Ev.ev = "rm" /\ ReadMember(Ev.m) /\ Ev.rep = mem'[Ev.m]
-  /\ Agree'
+     \/ Ev.ev = "rs" /\ ReadStruct(Ev.f) /\ (ok' => Ev.rep = str')
+     \/ Ev.ev = "rm" /\ ReadMember(Ev.m, Ev.f) /\ (ok' => Ev.rep = mem'[Ev.m])
+  /\ AgreeShown'
 
 TSpec == TInit /\ [][TStep]_<<svars, t, l>>
 Track == TLCSet(t, IF l > TLCGet(t) THEN l ELSE TLCGet(t))
